@@ -17,11 +17,11 @@ CHECK = {
     "entries": [
         {"fn": P + "vC42_producer", "replay": "model-only", "opts": {"feasibility": True, "unwind": 8}},
         {"fn": P + "vC42_consumer", "replay": "model-only",
-         "cases_quick": {"kind": [0, 1, 2, 3, 4], "bufLen": [0, 1, 2]},
-         "cases_thorough": {"kind": [0, 1, 2, 3, 4], "bufLen": [0, 1, 2, 3]},
+         "cases_quick": {"kind": [0, 1, 2, 3, 4], "bufLen": [0, 1, 2], "seqBits": [16]},
+         "cases_thorough": {"kind": [0, 1, 2, 3, 4], "bufLen": [0, 1, 2, 3], "seqBits": [61]},
          "cover_optional": ("redelivered", "delivered", "advanced", "session-reset", "buffered")},
     ],
-    "opts": {"unwind": 8, "substitute": SUB, "feasibility": False},
+    "opts": {"unwind": 8, "substitute": SUB, "feasibility": False, "batch_fresh": True, "reach_fresh": True, "equalfold_ascii": True},
     "stop": [k for k in SUB.keys() if k.startswith("(*" + P)],
     "timeout_ms": {"quick": 400000, "thorough": 1800000},
     "explanation": "TODO",
